@@ -429,6 +429,12 @@ func findNextCharsetPositionConstraint(search string, charset []byte) int {
 
 	for _, char := range charset {
 		pos := strings.IndexByte(search, char)
+		// the first occurrence lies inside the constraint: the character can still end the parameter behind it
+		if pos > constraintStart && pos < constraintEnd {
+			if next := strings.IndexByte(search[constraintEnd:], char); next != -1 {
+				pos = constraintEnd + next
+			}
+		}
 
 		if pos != -1 && (pos < nextPosition || nextPosition == -1) {
 			if (pos > constraintStart && pos > constraintEnd) || (pos < constraintStart && pos < constraintEnd) {
